@@ -30,7 +30,7 @@ def analyse(facts, cfg_inv=True):
                 return AV(32, 0, 1 << 24)
             return AV(32, 0, 0xffff)
         return inv.sym_facts(t)
-    ip = absint.Interp(facts, opaque=[WB], opaque_havoc={WB: [0]}, sym_facts=sf)
+    ip = absint.Interp(facts, opaque=[WB], opaque_havoc={WB: [0]}, sym_facts=sf, precise=True)
     st = ip.new_state()
     core = ip.arg_object(st, 'core')
     return ip, ip.run(HI, [core], st), inv
@@ -72,6 +72,7 @@ def run(ctx, chk):
         ip, rs, inv = analyse(facts)
         IF = S(8, 'core.memory.io.interrupt_flag.0', ('field', 'devices::interrupts::InterruptFlag', '0', 'u8'))
         disp = 0
+        agg = {}
         for i, r in enumerate(rs):
             key = '%s:path%d' % (cfg, i)
             st_ = stores_of(r)
@@ -102,14 +103,32 @@ def run(ctx, chk):
                 # IME off path
                 chk.ok('C07.2', key, sample={'path': 'IME not Enabled', 'writes': names})
                 continue
-            # dispatch path
+            # dispatch path: verdicts are filed per pending source (and the cancelled case), not per path, so that the
+            # number of instances does not depend on how the ladder is written
             disp += 1
+            col = Collector()
             bad = check_dispatch(r, st_, calls, IF)
             if bad:
-                chk.fail('C07.3', key, bad, file, None)
+                col.fail('C07.3', key, bad, file, None)
             else:
-                chk.ok('C07.3', key)
-            check_ladder(chk, key, r, st_, calls, file)
+                col.ok('C07.3', key)
+            check_ladder(col, key, r, st_, calls, file)
+            for case in covered_cases(r):
+                for rule, okk, msg, sample in col.items:
+                    agg.setdefault((rule, case), []).append((okk, msg, sample, key))
+            for e in col.errors:
+                chk.error(e)
+        for rule in ('C07.3', 'C07.4'):
+            for case in CASES:
+                res = agg.get((rule, case), [])
+                k2 = '%s:%s' % (cfg, case)
+                fails = [x for x in res if not x[0]]
+                if not res:
+                    chk.fail(rule, k2, 'no dispatch path of handle_interrupt handles the case "%s"' % case, file, None)
+                elif fails:
+                    chk.fail(rule, k2, '%s (path %s)' % (fails[0][1], fails[0][3]), file, None)
+                else:
+                    chk.ok(rule, k2, sample=res[0][2])
         ime_off = [r for r in rs if r.status == 'ok' and len(stores_of(r)) == 1]
         if not ime_off:
             chk.fail('C07.2', cfg + ':none', 'no path leaves the interrupt pending when the master enable is off', file, None)
@@ -203,8 +222,8 @@ def check_dispatch(r, st_, calls, IF):
         return 'dispatch does not charge exactly 5 machine cycles'
     # re-sample between the two pushes: the term tested by the ladder must come from state havoced by the first write
     ipf = [s for s in st_ if s[0] == 'registers.ip']
-    if not ipf or ipf[-1][1][0] != 'c':
-        return 'PC is not set to a constant vector'
+    if not ipf:
+        return 'PC is not redirected'
     order = [s[0] for s in st_]
     if order.index('interrupts_enabled') > order.index('registers.sp'):
         return 'master enable is cleared after the push started'
@@ -215,9 +234,8 @@ def check_ladder(chk, key, r, st_, calls, file):
     env = r.state.env
     ipf = [s for s in st_ if s[0] == 'registers.ip']
     iff = [s for s in st_ if s[0].endswith('interrupt_flag.0')]
-    if not ipf or ipf[-1][1][0] != 'c':
+    if not ipf:
         return
-    vec = ipf[-1][1][2]
     # the re-sampled pending term: find the decision terms over 'havoc' symbols
     resample = None
     for d in r.state.decisions:
@@ -247,55 +265,69 @@ def check_ladder(chk, key, r, st_, calls, file):
     if pend is None:
         chk.fail('C07.4', key, 'cannot identify the re-sampled pending set in %s' % fmt(resample), file, None)
         return
-    av = env.av(pend)
-    cleared = None
-    if iff:
-        # IF' & !clear  -> cleared mask = bits forced to 0 relative to the re-sampled IF
-        prov = bit_provenance(iff[-1][1], env)
-        cleared = sum(1 << i for i in range(8) if prov[i] == 0)
-        kept = [i for i in range(8) if prov[i] not in (0, 1) and prov[i] is not None]
-    table = {v: (b, m) for b, v, m, _ in sm83.INTERRUPT_VECTORS}
-    if vec == 0:
-        okk = av.is_const() and av.lo == 0 and (cleared is None or all(bit_provenance(iff[-1][1], env)[i] not in (0,) or
-                                                                       (env.av(pend).m0 >> i) & 1 for i in range(5)))
-        # no IF bit may be cleared: the stored IF must be the re-sampled IF
+    # value level: for every value of the sampled pending set P (and of everything else on the path)
+    #   PC' = 0 and IF' = IF            when P == 0   (cancelled dispatch)
+    #   PC' = 0x40 + 8 * tz(P), IF' = IF & ~lowest_set_bit(P)   otherwise
+    from .. import bvproof
+    from ..bdd import BV, Unsupported
+    try:
+        m, conv, K = bvproof.setup(env)
+        P = conv(pend)
+        V = conv(ipf[-1][1])
+        ifsym = [x for x in pend[3:] if x[0] == 's' and 'interrupt_flag' in x[2]]
+        if not ifsym:
+            chk.fail('C07.4', key, 'cannot identify the re-sampled IF in %s' % fmt(pend), file, None)
+            return
+        # IF as it is when the bit is cleared (the second push may have changed it again): the IF symbol of the stored term
+        cur = ifsym[0]
         if iff:
-            prov = bit_provenance(iff[-1][1], env)
-            unchanged = all(p is not None and p != 0 and p != 1 and p[0] == 'in' and p[2] == i for i, p in enumerate(prov[:5])
-                            if True)
-            okk = okk and unchanged
-        if okk:
-            chk.ok('C07.4', key, sample={'case': 'cancelled', 'pc': 0, 'cleared': 0})
-        else:
-            chk.fail('C07.4', key, 'PC := 0x0000 path is not "pending set became empty, no IF bit cleared"', file, None)
+            st_syms = [x for x in _all_syms(iff[-1][1]) if 'interrupt_flag' in x[2]]
+            if st_syms:
+                # the latest sample (highest havoc generation) is the IF being updated; earlier samples may legitimately
+                # appear inside the mask (it is computed from the pending set sampled between the pushes)
+                def gen(x):
+                    g = re.findall(r'@(\d+):', x[2])
+                    return int(g[0]) if g else 0
+                cur = max(st_syms, key=gen)
+        IF1 = conv(cur)
+        IFn = conv(iff[-1][1]) if iff else IF1
+        w = len(P)
+        low = P & P.neg()
+        tz = BV.const(m, len(V), 0)
+        for i in range(w - 1, -1, -1):
+            tz = BV.mux(m, P.b[i], BV.const(m, len(V), i), tz)
+        zero = m.NOT(P.nonzero())
+        wantV = BV.mux(m, zero, BV.const(m, len(V), 0), BV.const(m, len(V), 0x40) + tz.shl(3))
+        wantIF = IF1 & ~low
+        dV = m.AND(K, V.diff(wantV))
+        dI = m.AND(K, IFn.diff(wantIF))
+    except Unsupported as e:
+        chk.error('C07.4 %s: outside the bit-vector fragment: %s' % (key, e.why))
         return
-    if vec not in table:
-        chk.fail('C07.4', key, 'dispatch to vector %#x which is not an interrupt vector' % vec, file, None)
-        return
-    bit, m = table[vec]
-    higher = sum(1 << b for b in range(bit))
-    problems = []
-    if not (av.m1 & m):
-        problems.append('bit %d of the pending set is not known set on this path' % bit)
-    if (av.m0 & higher) != higher:
-        problems.append('a higher-priority bit may be pending')
-    if cleared is None or not iff:
-        problems.append('IF is not updated')
+    table = {v: (b_, m_) for b_, v, m_, _ in sm83.INTERRUPT_VECTORS}
+
+    def ev(bv, wit):
+        out = 0
+        for i, n in enumerate(bv.b):
+            while n > 1:
+                v_, lo_, hi_ = m.node[n]
+                sy, bit = m.names[v_]
+                n = hi_ if (wit.get(sy, 0) >> bit) & 1 else lo_
+            out |= n << i
+        return out
+    if dV != 0:
+        wit = m.witness(dV)
+        chk.fail('C07.4', key, 'pending set %#04x (sampled between the pushes): PC := %#x, the SM83 dispatches to %#x'
+                 % (ev(P, wit), ev(V, wit), ev(wantV, wit)), file, None)
+    elif dI != 0:
+        wit = m.witness(dI)
+        chk.fail('C07.4', key, 'pending set %#04x, IF %#04x: IF becomes %#04x, expected %#04x (exactly the dispatched bit '
+                 'cleared; nothing cleared on a cancelled dispatch)' % (ev(P, wit), ev(IF1, wit), ev(IFn, wit), ev(wantIF, wit)),
+                 file, None)
     else:
-        prov = bit_provenance(iff[-1][1], env)
-        for i in range(5):
-            if i == bit:
-                if prov[i] != 0:
-                    problems.append('IF bit %d is not cleared' % i)
-            elif not (prov[i] is not None and prov[i] not in (0, 1) and prov[i][0] == 'in' and prov[i][2] == i):
-                # bits known zero on the path may legitimately appear as 0
-                if not (prov[i] == 0 and (av.m0 >> i) & 1 and False):
-                    if prov[i] in (0, 1):
-                        problems.append('IF bit %d is forced to %s' % (i, prov[i]))
-    if problems:
-        chk.fail('C07.4', key, 'vector %#x: %s' % (vec, '; '.join(problems)), file, None)
-    else:
-        chk.ok('C07.4', key, sample={'vector': hex(vec), 'source_bit': bit, 'cleared_mask': hex(m)})
+        pv = ev(V, m.witness(K)) if K != 0 else None
+        chk.ok('C07.4', key, sample={'vector on this path': hex(pv) if pv is not None else None,
+                                     'source': table.get(pv, ('cancelled', 0))[0] if pv is not None else None})
 
 
 def find_and(t):
@@ -309,3 +341,68 @@ def find_and(t):
             return x
         stack.extend(x[3:])
     return best
+
+
+def _all_syms(t):
+    out = []
+    stack = [t]
+    while stack:
+        x = stack.pop()
+        if isinstance(x, tuple) and x:
+            if x[0] == 's':
+                out.append(x)
+            elif x[0] == 'o':
+                stack.extend(x[3:])
+    return list(dict.fromkeys(out))
+
+
+CASES = ('cancelled', 'VBlank', 'STAT', 'Timer', 'Serial', 'Joypad')
+
+
+class Collector:
+    """stands in for Check while one path is examined"""
+
+    def __init__(self):
+        self.items = []
+        self.errors = []
+
+    def ok(self, rule, key, sample=None, nontrivial=True):
+        self.items.append((rule, True, None, sample))
+
+    def fail(self, rule, key, what, file=None, line=None, detail=None):
+        self.items.append((rule, False, what, None))
+
+    def error(self, msg):
+        self.errors.append(msg)
+
+
+def covered_cases(r):
+    """which pending-source cases (by the set sampled between the pushes) a dispatch path can be taken for"""
+    from .. import bvproof
+    from ..bdd import Unsupported
+    pend = None
+    for d in r.state.decisions:
+        if 'call(memory_write_byte)' in fmt(d[0]) or 'havoc' in fmt(d[0]):
+            pend = find_and(d[0])
+            if pend is not None:
+                break
+    if pend is None:
+        for e in r.state.events:
+            if e[0] == 'store' and e[1] == 'core' and e[2][-1][1] == 'ip':
+                pend = find_and(e[3])
+    if pend is None:
+        return list(CASES)
+    try:
+        m, conv, K = bvproof.setup(r.state.env)
+        P = conv(pend)
+    except Unsupported:
+        return list(CASES)
+    out = []
+    if m.AND(K, m.NOT(P.nonzero())) != 0:
+        out.append('cancelled')
+    lower = 1
+    for i in range(5):
+        if m.AND(K, m.AND(lower, P.b[i])) != 0:
+            out.append(CASES[i + 1])
+        lower = m.AND(lower, m.NOT(P.b[i]))
+    return out
